@@ -82,7 +82,7 @@ def canary(run, relfile, qual, make_contract, engine_setup=None):
         return None
     ens = [o for o in obs if o.kind == "ensures"]
     if not ens:
-        return False
+        return None       # no return was reached on any explored path: nothing to conclude (the main run reports it)
     for o in ens:
         if eng.solve(o) != "proved":
             return True     # refuted as it must be
